@@ -31,6 +31,7 @@ var Themes = []string{
 	"dry-run", "adapter-422", "retry-later", "expired-action", "many-after-abort",
 	"dup-during-delivery", "exhausted-plus-fresh-in-failed-batch",
 	"real-first-storage-request-fails", "real-storage-faults", "real-none",
+	"upload-local-file-lost-or-truncated",
 }
 
 func sha256hex(b []byte) string {
@@ -63,7 +64,7 @@ func Gen(seed int64, idx int, prof string) Case {
 	}
 	c.Upload = r.Intn(10) < 3
 	switch theme {
-	case "upload-missing-with-action", "upload-missing-no-action", "adapter-422", "many-after-abort":
+	case "upload-missing-with-action", "upload-missing-no-action", "adapter-422", "many-after-abort", "upload-local-file-lost-or-truncated":
 		c.Upload = true
 	}
 	if theme == "many-after-abort" {
@@ -216,6 +217,17 @@ func Gen(seed int64, idx int, prof string) Case {
 		i := r.Intn(len(c.Objs))
 		c.Objs[i].MissingLocal = true
 		c.ObjBatch[c.Objs[i].Oid] = []string{"noaction", "noaction", "noaction"}
+	case "upload-local-file-lost-or-truncated":
+		// the local file of some, or of every, object of the upload is gone or has another size by the time the
+		// queue hands the batch to the adapter (nobody told the queue: Add(missing=false)); each such object has to
+		// end up covered by a reported error, also when a batch holds nothing else
+		which := r.Intn(3) // 0 every object, 1 one object, 2 a random subset
+		one := r.Intn(len(c.Objs))
+		for i := range c.Objs {
+			if which == 0 || (which == 1 && i == one) || (which == 2 && r.Intn(2) == 0) {
+				c.Objs[i].LocalState = pick(r, "lost", "truncated")
+			}
+		}
 	case "many-after-abort":
 		// a missing object early, a small batch size, and many adds afterwards
 		c.Objs[0].MissingLocal = true
